@@ -125,3 +125,42 @@ Definition logger (e : env) (next : handler) : handler :=
 
 Definition logs_of (tr : list event) : list logrec :=
   flat_map (fun ev => match ev with EvLog r => [r] | _ => [] end) tr.
+
+(* ---- middleware records and composition (options.go:119-156, fox.go:859-888), as far as
+   instances of the Logger are concerned ---- *)
+Record mwrec := { mw_scope : list hscope; mw_g : bool }.
+Definition all_scopes : list hscope := [SRoute; SNoRoute; SNoMethod; SRedirect; SOptions].
+
+(* the record each option appends *)
+Definition global_rec (a : attach) : mwrec :=
+  match a with
+  | AWithMiddleware => {| mw_scope := all_scopes; mw_g := true |}            (* WithMiddleware, router *)
+  | AWithMiddlewareFor mask => {| mw_scope := mask; mw_g := true |}         (* WithMiddlewareFor *)
+  end.
+Definition route_rec : mwrec := {| mw_scope := [SRoute]; mw_g := false |}.    (* WithMiddleware, route *)
+
+Definition in_scope (s : hscope) (m : mwrec) : bool := existsb (hscope_eqb s) (mw_scope m).
+
+(* NewRoute: the router's records followed by the route's own *)
+Definition route_mws (globals : list attach) (level : nat) : list mwrec :=
+  map global_rec globals ++ repeat route_rec level.
+
+(* applyMiddleware(scope, mws, h): number of wrappers *)
+Definition apply_count (s : hscope) (mws : list mwrec) : nat := List.length (filter (in_scope s) mws).
+(* applyRouteMiddleware: (hself, hall) *)
+Definition hall_count (mws : list mwrec) : nat := List.length (filter (in_scope SRoute) mws).
+Definition hself_count (mws : list mwrec) : nat :=
+  List.length (filter (fun m => in_scope SRoute m && negb (mw_g m)) mws).
+
+Definition loggers_run (k : kind) (d : dispatch) (globals : list attach) (target_level alias_level : nat) : nat :=
+  match d with
+  | DServe => if has_route k then hall_count (route_mws globals target_level)
+              else apply_count (scope_of k) (map global_rec globals)
+  | DAliasMiddleware => hall_count (route_mws globals alias_level) + hself_count (route_mws globals target_level)
+  | DAliasHandle => hall_count (route_mws globals alias_level)
+  | DLookupMiddleware => hself_count (route_mws globals target_level)
+  | DLookupHandle => 0
+  end.
+
+(* n instances of the Logger around a handler *)
+Definition loggers (n : nat) (e : env) (next : handler) : handler := Nat.iter n (logger e) next.
